@@ -154,10 +154,19 @@ Section Spec.
     r_id (fold_left (fun r fl => setf fl (g fl) r) force r) = r_id r.
   Proof. induction force as [|fl force IH]; intros r; simpl; [reflexivity|]. rewrite IH. apply r_id_setf. Qed.
 
+  Lemma fresh_auto_free : forall fuel base rows a nid a', fresh_auto fuel base rows a = Some (nid, a') ->
+    has_id nid rows = false.
+  Proof.
+    induction fuel as [|fuel IH]; intros base rows a nid a'; cbn [fresh_auto];
+      destruct (auto_incr base a) as [n1 a1]; destruct (has_id n1 rows) eqn:E; intros H;
+      try discriminate; try (inversion H; subst; exact E).
+    eapply IH. exact H.
+  Qed.
+
   Lemma create_unique_ids st f b st' id : NoDup (ids st) -> create_unique st f b = Ok (OStored st' id) -> NoDup (ids st').
   Proof.
-    unfold create_unique. destruct (auto_incr (r_id f) (s_auto st)) as [nid a].
-    destruct (has_id nid (s_rows st)) eqn:E; [discriminate|]. intros Hnd H. inversion H; subst.
+    unfold create_unique. destruct (fresh_auto _ _ _ _) as [[nid a]|] eqn:E; [|discriminate].
+    apply fresh_auto_free in E. intros Hnd H. inversion H; subst.
     unfold ids. cbn [s_rows]. rewrite map_app. cbn. apply NoDup_snoc; [exact Hnd|].
     intro Hin. apply has_id_In in Hin. congruence.
   Qed.
@@ -170,10 +179,10 @@ Section Spec.
     - discriminate.
     - inversion H. reflexivity.
     - inversion H. unfold ids. cbn [s_rows]. rewrite ids_update_const by reflexivity. exact Hnd.
-    - destruct o as [st'|st' id]; [unfold create_unique in H; destruct (auto_incr _ _); destruct (has_id _ _); discriminate|].
+    - destruct o as [st'|st' id]; [unfold create_unique in H; destruct (fresh_auto _ _ _ _) as [[? ?]|]; discriminate|].
       eapply create_unique_ids; eassumption.
     - destruct (rev (filter (same_checked force f) (candidates st (r_id f)))) as [|target rest].
-      + destruct o as [st'|st' id]; [unfold create_unique in H; destruct (auto_incr _ _); destruct (has_id _ _); discriminate|].
+      + destruct o as [st'|st' id]; [unfold create_unique in H; destruct (fresh_auto _ _ _ _) as [[? ?]|]; discriminate|].
         eapply create_unique_ids; eassumption.
       + inversion H. unfold ids. cbn [s_rows]. rewrite ids_update; [exact Hnd|].
         intros r. rewrite r_id_fold_setf. reflexivity.
